@@ -10,6 +10,13 @@ import (
 )
 
 // Clause is one requires/ensures/invariant line with its source text.
+// GuardSpec: `guards T.f by EXPR` -- a lock discipline obligation (class `guarded`) at every instruction of the body that
+// takes the address of field f of an object of struct type T; `self` in EXPR is that object.
+type GuardSpec struct {
+	Type, Field string
+	C           Clause
+}
+
 type Clause struct {
 	Text string
 	E    Expr
@@ -57,6 +64,7 @@ type Unit struct {
 	Excludes    []string // type names / "globals": the inferred write footprint of the function contains no field of them
 	Lemmas      []Clause // closed formulas proved on their own (class "lemma"), e.g. injectivity of a cache key
 	Preserves   []string // type names: no field of any pre-existing object of these struct types changes
+	Guards      []GuardSpec // guards T.f by EXPR(self): every access to field f of a T in the body happens while EXPR holds
 	Ats         []AtSpec
 	MemoClass   string     // memoize CLASS: value class of the build-cache keys made in this function (C13)
 	Pins        []EnumSpec // pins OBJ [except f,...]: every field of OBJ's struct type is assigned on every path
@@ -141,7 +149,7 @@ func NewContracts() *Contracts {
 	return &Contracts{Units: map[string]*Unit{}, Specs: map[string]*SpecFunc{}, Ghosts: map[string]*GhostVar{}, GhostFields: map[string]map[string]*GhostField{}}
 }
 
-var clauseKeywords = map[string]bool{"excludes": true, "lemma": true, "returns": true, "after": true, "preserves": true, "step": true, "exits": true, "at": true, "memoize": true, "pins": true, "visits": true, "requires": true, "ensures": true, "modifies": true, "invariant": true,
+var clauseKeywords = map[string]bool{"guards": true, "excludes": true, "lemma": true, "returns": true, "after": true, "preserves": true, "step": true, "exits": true, "at": true, "memoize": true, "pins": true, "visits": true, "requires": true, "ensures": true, "modifies": true, "invariant": true,
 	"decreases": true, "loop": true, "func": true, "spec": true, "define": true, "axiom": true, "ghost": true,
 	"opts": true, "pure": true, "end": true, "trusted": true, "refines": true, "abstr": true}
 
@@ -368,6 +376,22 @@ func (c *Contracts) ParseFile(path, pkgPath string) error {
 				return err
 			}
 			cur.Lemmas = append(cur.Lemmas, cl)
+		case "guards":
+			if cur == nil {
+				return fmt.Errorf("%s:%d: guards outside func", path, r.line)
+			}
+			i := strings.Index(r.text, " by ")
+			tf := strings.TrimSpace(r.text)
+			if i < 0 || !strings.Contains(tf[:i], ".") {
+				return fmt.Errorf("%s:%d: guards T.f by EXPR", path, r.line)
+			}
+			cl, err := mkClause(rawClause{kw: r.kw, text: strings.TrimSpace(r.text[i+4:]), line: r.line})
+			if err != nil {
+				return err
+			}
+			tfs := strings.TrimSpace(r.text[:i])
+			d := strings.LastIndex(tfs, ".")
+			cur.Guards = append(cur.Guards, GuardSpec{Type: tfs[:d], Field: tfs[d+1:], C: cl})
 		case "preserves":
 			if cur == nil {
 				return fmt.Errorf("%s:%d: preserves outside func", path, r.line)
